@@ -1186,12 +1186,20 @@ func (p *smtPrinter) pr1(t *Term, bound map[string]bool, bc map[*Term]bool) stri
 			var ps []string
 			for _, pat := range t.Pats {
 				var ts []string
+				okPat := true
 				for _, x := range pat {
+					if hasBoolOp(x) {
+						okPat = false // the solvers reject patterns with logical connectives
+					}
 					ts = append(ts, p.patTerm(x, bound, bc))
 				}
-				ps = append(ps, ":pattern ("+strings.Join(ts, " ")+")")
+				if okPat {
+					ps = append(ps, ":pattern ("+strings.Join(ts, " ")+")")
+				}
 			}
-			body = "(! " + body + " " + strings.Join(ps, " ") + ")"
+			if len(ps) > 0 {
+				body = "(! " + body + " " + strings.Join(ps, " ") + ")"
+			}
 		}
 		return "(" + t.Op + " (" + strings.Join(bs, " ") + ") " + body + ")"
 	}
@@ -1940,6 +1948,28 @@ func occursIn(x, t *Term) bool {
 			return false
 		}
 		seen[t] = true
+		for _, a := range t.Args {
+			if rec(a) {
+				return true
+			}
+		}
+		return false
+	}
+	return rec(t)
+}
+
+func hasBoolOp(t *Term) bool {
+	seen := map[*Term]bool{}
+	var rec func(t *Term) bool
+	rec = func(t *Term) bool {
+		if seen[t] {
+			return false
+		}
+		seen[t] = true
+		switch t.Op {
+		case "and", "or", "not", "=>", "forall", "exists":
+			return true
+		}
 		for _, a := range t.Args {
 			if rec(a) {
 				return true
